@@ -893,9 +893,28 @@ func (t *Tree) Compile(file string, args []string, out io.Writer) (err error) {
 			}
 			return consumes, s
 		}
-		for element := range t.Iterator() {
-			if element.GetType() == TypeRule {
-				optimizeAlternates(element)
+		/* a rule met again while it is still being analysed (recursion) answers
+		   with what the previous pass found for it, so the analysis is repeated
+		   until a pass changes nothing; the bound is for left recursive grammars,
+		   which may never settle */
+		for range t.RulesCount + 1 {
+			previous := slices.Clone(cache)
+			for i := range cache {
+				cache[i].reached = false
+			}
+			for element := range t.Iterator() {
+				if element.GetType() == TypeRule {
+					optimizeAlternates(element)
+					break
+				}
+			}
+			changed := false
+			for i := range cache {
+				if cache[i].consumes != previous[i].consumes || !cache[i].s.Equal(previous[i].s) {
+					changed = true
+				}
+			}
+			if !changed {
 				break
 			}
 		}
